@@ -541,9 +541,11 @@ class C18(F.Check):
         # ---- streaming: the event trace of operator<< (the stream itself is a stub: every call on it is recorded with its arguments)
         self.stream = []
         sreps = F.ALL_REPS + ["char", "signed char", "unsigned char", "int", "long"]
-        sunits = [("Feet", "ft"), ("Kilo<Feet>", "kft"), ("decltype(Feet{} / Kelvins{})", "ft / K"), ("Meters", "m")]
+        sunits = [("Feet", "ft"), ("Kilo<Feet>", "kft"), ("decltype(Feet{} / Kelvins{})", "ft / K"),
+                  ("Percent", "%"), ("decltype(Meters{} / Kilo<Meters>{})", "m / km"),        # dimensionless units keep their labels
+                  ("Unos", "U"), ("decltype(Unos{} * mag<1000>())", "[1000 U]"), ("Meters", "m")]
         if self.tier == "quick":
-            sunits = sunits[:3]
+            sunits = sunits[:5]
         for ri, r in enumerate(sreps):
             for ui, (u, lab) in enumerate(sunits):
                 nm = "c18_stream_%d_%d" % (ri, ui)
